@@ -255,7 +255,16 @@ func clCleanupOrder(c *Ctx) {
 	if callb == nil {
 		undecidedf("doCleanup: destructor call not found")
 	}
-	isFreePlus1 := func(v ssa.Value) bool {
+	var isFreePlus1 func(v ssa.Value) bool
+	isFreePlus1 = func(v ssa.Value) bool {
+		// a pure private accessor returning freeSeqno+1
+		if call, ok := strip(v).(*ssa.Call); ok {
+			if h := call.Call.StaticCallee(); h != nil && h.Blocks != nil && len(h.Blocks) == 1 && h.Package() == fn.Package() {
+				if ret, isRet := h.Blocks[0].Instrs[len(h.Blocks[0].Instrs)-1].(*ssa.Return); isRet && len(ret.Results) == 1 {
+					return isFreePlus1(ret.Results[0])
+				}
+			}
+		}
 		b, ok := strip(v).(*ssa.BinOp)
 		if !ok || b.Op != token.ADD || !isConstInt(1)(b.Y) {
 			return false
